@@ -188,8 +188,34 @@ type cworld struct {
 	k      *Keeper
 	bank   *convBank
 	evm    *convEVM
-	pair   types.TokenPair
+	pair   types.TokenPair   // the pair the message's token identifier resolves to (zero value: none)
+	pairs  []types.TokenPair // everything registered
 	params types.Params
+}
+
+func (w *cworld) register(p types.TokenPair) {
+	w.pairs = append(w.pairs, p)
+	w.k.SetTokenPair(w.ctx, p)
+	w.k.SetDenomsMap(w.ctx, p.Denoms, p.GetID())
+	w.k.SetERC20Map(w.ctx, p.GetERC20Contract(), p.GetID())
+}
+
+func (w *cworld) pairByDenom(d string) types.TokenPair {
+	for _, p := range w.pairs {
+		if lists11(p, d) {
+			return p
+		}
+	}
+	return types.TokenPair{}
+}
+
+func (w *cworld) pairByContract(c common.Address) types.TokenPair {
+	for _, p := range w.pairs {
+		if p.GetERC20Contract() == c {
+			return p
+		}
+	}
+	return types.TokenPair{}
 }
 
 func newConvWorld() *cworld {
@@ -197,7 +223,7 @@ func newConvWorld() *cworld {
 	w.k = NewKeeper(rt.StoreKey(types.StoreKey), rt.Codec(), rt.Subspace(), convAccounts{}, w.bank, w.evm)
 	w.params = types.Params{EnableAggregate: rt.Bool("moduleEnabled"), EnableEVMHook: true}
 	w.k.SetParams(w.ctx, w.params)
-	// zero or one registered pair with one or two denominations
+	// zero, one or two registered pairs; the first with one or two denominations, the second with one
 	if rt.Bool("pairRegistered") {
 		addr := common.BytesToAddress(rt.BytesN("pairAddr", 20))
 		denoms := []string{rt.Str("pairDenom")}
@@ -207,10 +233,18 @@ func newConvWorld() *cworld {
 		}
 		owner := types.Owner(rt.U32("owner"))
 		rt.Assume(owner == types.OWNER_MODULE || owner == types.OWNER_EXTERNAL)
-		w.pair = types.NewTokenPair(addr, denoms, rt.Bool("pairEnabled"), owner)
-		w.k.SetTokenPair(w.ctx, w.pair)
-		w.k.SetDenomsMap(w.ctx, w.pair.Denoms, w.pair.GetID())
-		w.k.SetERC20Map(w.ctx, w.pair.GetERC20Contract(), w.pair.GetID())
+		w.register(types.NewTokenPair(addr, denoms, rt.Bool("pairEnabled"), owner))
+		if rt.Bool("secondPair") {
+			addr2 := common.BytesToAddress(rt.BytesN("pair2Addr", 20))
+			rt.Assume(addr2 != addr)
+			d2 := rt.Str("pair2Denom")
+			for _, d := range denoms {
+				rt.Assume(d != d2)
+			}
+			owner2 := types.Owner(rt.U32("owner2"))
+			rt.Assume(owner2 == types.OWNER_MODULE || owner2 == types.OWNER_EXTERNAL)
+			w.register(types.NewTokenPair(addr2, []string{d2}, rt.Bool("pair2Enabled"), owner2))
+		}
 	}
 	rt.Abstract("(github.com/tharsis/ethermint/x/evm/statedb.Account).IsContract")
 	return w
@@ -244,6 +278,7 @@ func VerifC11ConvertCoin() {
 	sender := sdk.AccAddress(senderBytes)
 	rt.Assume(!bytes.Equal(sender, w.bank.moduleAddr))
 	denom := msg.Coin.Denom
+	w.pair = w.pairByDenom(denom)
 
 	senderBefore := w.bank.entry(sender, denom).amt
 	moduleBefore := w.bank.entry(w.bank.moduleAddr, denom).amt
@@ -326,6 +361,7 @@ func VerifC11ConvertERC20() {
 	contract := common.BytesToAddress(rt.BytesN("contractAddr", 20))
 	msg := types.NewMsgConvertERC20(amount, receiver, contract, sender, rt.Str("coinDenom"))
 	denom := msg.Denom
+	w.pair = w.pairByContract(contract)
 
 	receiverBefore := w.bank.entry(receiver, denom).amt
 	moduleBefore := w.bank.entry(w.bank.moduleAddr, denom).amt
